@@ -1,6 +1,6 @@
 (* C12 — property theorems. This file contains nothing but the statements, each closed by
    `exact <lemma>` from Proofs.v, with Print Assumptions beneath, and the non-vacuity examples. *)
-From C12 Require Import Model Proofs Lexer ProofsLexer Legacy ProofsLegacy.
+From C12 Require Import Model Proofs Lexer ProofsLexer Legacy ProofsLegacy ProofsLegacyRef.
 
 (* The rewriting that moves NOT operators (De Morgan / NAND fusion) does not change the selected
    set, and leaves NOT at most at the root — for every tree the parsers can build, every valuation. *)
@@ -245,3 +245,46 @@ Example C12_legacy_nonvacuous :
   /\ legacy_agg ex_space ex_letter ex_digit ex_lower false [107;58;97;42;66]%N
      = ROk (Some (LLit [107%N] [TmText [97%N]; TmSym; TmText [98%N]])).
 Proof. vm_compute. repeat split. Qed.
+
+(* The legacy tokenizer (Legacy.v: ltoks - the same walk over the runes as parseSubexpr/parseExpr,
+   sharing every lexical function with them, flattened into the token alphabet of Model.v: `(`,
+   `)`, not, and, or, and one TAtom n / TText [n; ..] per field filter, n.. = indices into the leaf
+   table) refines to the token-level parser: on EVERY input it accepts (all oracles, all mappings),
+   ParseQuery on the raw bytes is exactly the token-level parser of Model.v on the token list - the
+   same query (not only the same shape: leaves are indices into the same leaf table) or, for the
+   structural errors the tokenizer does not reject (end of input where an operand or `)` is
+   expected), the same error. So C12_parse_denotes*, C12_propagate_not_sound and
+   C12_parse_total_tokens speak about raw legacy strings. *)
+Theorem C12_legacy_lex_refines_tokens :
+  forall (is_space is_letter is_number : N -> bool) (to_lower : N -> N) (case_sensitive : bool)
+         (ftype : bytes -> N) (q : bytes) ts lv,
+    legacy_lex is_space is_letter is_number to_lower case_sensitive ftype q = ROk (ts, lv) ->
+    legacy_parse is_space is_letter is_number to_lower case_sensitive ftype q
+    = match parse ts with Ok a => ROk (a, lv) | Err => RErr | OutOfFuel => RFuel end.
+Proof. exact legacy_refines. Qed.
+Print Assumptions C12_legacy_lex_refines_tokens.
+
+(* Corollary: a raw legacy string whose tokens are the minimal rendering of an expression e parses
+   to a query denoting e (in the valuation that reads leaf i as entry i of the leaf table). *)
+Theorem C12_legacy_raw_denotes :
+  forall (is_space is_letter is_number : N -> bool) (to_lower : N -> N) (case_sensitive : bool)
+         (ftype : bytes -> N) (q : bytes) e lv,
+    legacy_lex is_space is_letter is_number to_lower case_sensitive ftype q = ROk (render_min e, lv) ->
+    exists t, legacy_parse is_space is_letter is_number to_lower case_sensitive ftype q = ROk (t, lv)
+              /\ forall v, eval v t = den v e.
+Proof. exact legacy_raw_denotes. Qed.
+Print Assumptions C12_legacy_raw_denotes.
+
+(* non-vacuity of both hypotheses: the tokenizer accepts ex_q1, and its tokens are the minimal
+   rendering of  (0 and not (1 and 2)) or 3  up to the redundant parentheses around the range;
+   a string whose tokens ARE a minimal rendering:  k:a or not t:b\ c *)
+Example C12_legacy_refines_nonvacuous :
+  legacy_lex ex_space ex_letter ex_digit ex_lower false ex_ftype ex_q1
+  = ROk ([TAtom 0; TAnd; TNot; TText [1; 2]; TOr; TLP; TAtom 3; TRP],
+         [LLit [107%N] [TmText [97%N; 32%N; 98%N]]; LLit [116%N] [TmText [120%N]];
+          LLit [116%N] [TmText [121%N]]; LRng [107%N] (TmText [97%N]) TmSym true true])
+  /\ fst (match legacy_lex ex_space ex_letter ex_digit ex_lower false ex_ftype
+                  [107;58;97;32;111;114;32;110;111;116;32;116;58;98;92;32;99]%N
+          with ROk x => x | _ => ([], []) end)
+     = render_min (EOr (EAtom 0) (ENot (EText 1 [2]))).
+Proof. vm_compute. split; reflexivity. Qed.
